@@ -273,6 +273,17 @@ func (h *FBDNSDB) ServeDNSWithRCODE(ctx context.Context, w dns.ResponseWriter, r
 		h.stats.IncrementCounter("DNS_response.refused")
 		m := new(dns.Msg)
 		m.SetRcode(r, dns.RcodeRefused)
+		if r.IsEdns0() != nil {
+			// Attach our own OPT as on the other paths: left to SizeAndDo, the
+			// request's OPT would be reused and its client-subnet option dropped.
+			o = new(dns.OPT)
+			o.Hdr.Name = "."
+			o.Hdr.Rrtype = dns.TypeOPT
+			if ecs != nil {
+				o.Option = append(o.Option, ecs)
+			}
+			m.Extra = append(m.Extra, o)
+		}
 		// does not matter if this write fails
 		return h.writeAndLog(state, m, ecs)
 	}
